@@ -11,7 +11,9 @@ ORACLE = {"05": sc.oracle_C05, "06": sc.oracle_C06_full, "07": sc.oracle_C07}["0
 def run(ck):
     sc.run_property(ck, ORACLE, MODES)
     ck.run_fixed({"every_registration_of_a_component_is_torn_down": "C05:resource-teardown",
-                  "factories_waiting_on_each_other_complete": "C05:acyclic-pattern-failed"})
+                  "factories_waiting_on_each_other_complete": "C05:acyclic-pattern-failed",
+                  "nested_tree_publications_release_waiters": "C05:acyclic-pattern-failed",
+                  "same_configuration_object_started_twice": "C05:once"})
 
 
 def replay(ck, obj):
